@@ -178,16 +178,26 @@ func expected(m *ref.Model, id ids) deliveries {
 
 var entSeq int
 
+func cloneIDs(id ids) ids {
+	c := ids{routes: append([]string(nil), id.routes...), aggs: append([]string(nil), id.aggs...)}
+	for _, ds := range id.dests {
+		c.dests = append(c.dests, append([]string(nil), ds...))
+	}
+	return c
+}
+
 func TestPropParkedDispatch(t *testing.T) {
 	rec := ev.Get("parked_dispatch")
 	rapid.Check(t, func(t *rapid.T) {
 		mb := genSmallModel(t)
 		b := ref.Build(mb, ref.BuildOpts{InBuf: 10, AggFmts: uniqueFmts(len(mb.Aggs))})
-		// stable ids
+		// stable ids and the objects behind them
 		var idb ids
 		destObjs := map[string]*dest.Destination{}
+		routeObjs := map[string]route.Route{}
 		for i, r := range mb.Routes {
 			idb.routes = append(idb.routes, r.Key)
+			routeObjs[r.Key] = b.Routes[i]
 			var ds []string
 			for j := range r.Dests {
 				k := fmt.Sprintf("%s/d%d", r.Key, j)
@@ -208,163 +218,195 @@ func TestPropParkedDispatch(t *testing.T) {
 		}
 
 		// park point
-		var points []string
-		points = append(points, "table.Dispatch")
-		for i, r := range mb.Routes {
+		points := []string{"table.Dispatch", "table.Dispatch"}
+		for _, r := range mb.Routes {
 			if r.Type == "capture" {
 				points = append(points, "capture:"+r.Key)
 			} else {
 				points = append(points, "route:"+r.Key)
 			}
-			_ = i
 		}
 		point := rapid.SampledFrom(points).Draw(t, "parkpoint")
 
-		// the operation and the model after it
-		ma := cloneModel(mb)
-		ida := ids{routes: append([]string(nil), idb.routes...), aggs: append([]string(nil), idb.aggs...)}
-		for _, ds := range idb.dests {
-			ida.dests = append(ida.dests, append([]string(nil), ds...))
+		// 1-3 admin operations, each generated against the table as the previous ones leave it
+		cur := cloneModel(mb)
+		curID := cloneIDs(idb)
+		type state struct {
+			m  *ref.Model
+			id ids
 		}
-		var op func() error
-		var opDesc string
+		states := []state{{cloneModel(mb), cloneIDs(idb)}}
+		var ops []func() error
+		var opDescs []string
 		deletedNonLast := false
 		var drainDests []*dest.Destination
-		entSeq++
+		deletedRoutes := map[string]bool{}
+		deletedAggs := map[string]bool{}
 		kinds := []string{"delRoute", "delRoute", "addRoute", "delBlack", "delBlack", "addBlack", "delRewriter", "delRewriter", "addRewriter", "delAgg", "delAgg", "addAgg", "delDest", "delDest", "addDest", "modRoute", "modDest"}
-		kind := rapid.SampledFrom(kinds).Draw(t, "op")
-		realRoutes := []int{}
-		for i, r := range mb.Routes {
-			if r.Type != "capture" {
-				realRoutes = append(realRoutes, i)
-			}
-		}
-		switch kind {
-		case "delRoute":
-			i := rapid.IntRange(0, len(mb.Routes)-1).Draw(t, "idx")
-			key := mb.Routes[i].Key
-			op = func() error { return b.Tab.DelRoute(key) }
-			opDesc = "delRoute " + key
-			ma.Routes = append(ma.Routes[:i:i], ma.Routes[i+1:]...)
-			ida.routes = append(ida.routes[:i:i], ida.routes[i+1:]...)
-			ida.dests = append(ida.dests[:i:i], ida.dests[i+1:]...)
-			deletedNonLast = i < len(mb.Routes)-1
-			drainDests = append(drainDests, b.Dests[i]...)
-		case "addRoute":
-			key := fmt.Sprintf("new%d", entSeq)
-			f := genF(t, "newroute", 20)
-			c := h.NewCaptureRoute(key, f.MustMatcher())
-			capObjs[key] = c
-			op = func() error { b.Tab.AddRoute(c); return nil }
-			opDesc = "addRoute " + key + f.String()
-			ma.Routes = append(ma.Routes, ref.RouteModel{Key: key, Type: "capture", Filter: f})
-			ida.routes = append(ida.routes, key)
-			ida.dests = append(ida.dests, nil)
-		case "delBlack":
-			if len(mb.Blacklist) == 0 {
-				t.Skip("no blacklist")
-			}
-			i := rapid.IntRange(0, len(mb.Blacklist)-1).Draw(t, "idx")
-			op = func() error { return b.Tab.DelBlacklist(i) }
-			opDesc = fmt.Sprintf("delBlack %d", i)
-			ma.Blacklist = append(ma.Blacklist[:i:i], ma.Blacklist[i+1:]...)
-			deletedNonLast = i < len(mb.Blacklist)-1
-		case "addBlack":
-			f := rapid.SampledFrom([]gen.Filter{{Prefix: "foo"}, {Sub: "zzz"}, {Regex: "bar$"}}).Draw(t, "newbl")
-			mm := f.MustMatcher()
-			op = func() error { b.Tab.AddBlacklist(&mm); return nil }
-			opDesc = "addBlack " + f.String()
-			ma.Blacklist = append(ma.Blacklist, f)
-		case "delRewriter":
-			if len(mb.Rewriters) == 0 {
-				t.Skip("no rewriter")
-			}
-			i := rapid.IntRange(0, len(mb.Rewriters)-1).Draw(t, "idx")
-			op = func() error { return b.Tab.DelRewriter(i) }
-			opDesc = fmt.Sprintf("delRewriter %d", i)
-			ma.Rewriters = append(ma.Rewriters[:i:i], ma.Rewriters[i+1:]...)
-			deletedNonLast = i < len(mb.Rewriters)-1
-		case "addRewriter":
-			r := ref.RW{Old: "/$/", New: ".n", Max: -1}
-			rw, _ := r.Real()
-			op = func() error { b.Tab.AddRewriter(rw); return nil }
-			opDesc = "addRewriter " + r.String()
-			ma.Rewriters = append(ma.Rewriters, r)
-		case "delAgg":
-			if len(mb.Aggs) == 0 {
-				t.Skip("no aggregation")
-			}
-			i := rapid.IntRange(0, len(mb.Aggs)-1).Draw(t, "idx")
-			op = func() error { return b.Tab.DelAggregator(i) }
-			opDesc = fmt.Sprintf("delAgg %d", i)
-			ma.Aggs = append(ma.Aggs[:i:i], ma.Aggs[i+1:]...)
-			ida.aggs = append(ida.aggs[:i:i], ida.aggs[i+1:]...)
-			deletedNonLast = i < len(mb.Aggs)-1
-		case "addAgg":
-			f := genF(t, "newagg", 30)
-			if f.Regex == "" {
-				f.Regex = "."
-			}
-			k := fmt.Sprintf("anew%d", entSeq)
-			ag, err := aggregator.NewMocked("count", f.MustMatcher(), "c18."+k, false, 10, 100, false, b.AggOut, 10, func() time.Time { return time.Unix(1500000000, 0) }, make(chan time.Time))
-			if err != nil {
-				t.Fatalf("HARNESS-ERROR: %v", err)
-			}
-			defer ag.Shutdown()
-			aggObjs[k] = ag
-			op = func() error { b.Tab.AddAggregator(ag); return nil }
-			opDesc = "addAgg " + f.String()
-			ma.Aggs = append(ma.Aggs, ref.AggModel{Filter: f})
-			ida.aggs = append(ida.aggs, k)
-		case "delDest", "addDest", "modDest":
-			if len(realRoutes) == 0 {
-				t.Skip("no carbon route")
-			}
-			ri := realRoutes[rapid.IntRange(0, len(realRoutes)-1).Draw(t, "ridx")]
-			key := mb.Routes[ri].Key
-			switch kind {
-			case "delDest":
-				j := rapid.IntRange(0, len(mb.Routes[ri].Dests)-1).Draw(t, "didx")
-				op = func() error { return b.Tab.DelDestination(key, j) }
-				opDesc = fmt.Sprintf("delDest %s %d", key, j)
-				ma.Routes[ri].Dests = append(ma.Routes[ri].Dests[:j:j], ma.Routes[ri].Dests[j+1:]...)
-				ida.dests[ri] = append(ida.dests[ri][:j:j], ida.dests[ri][j+1:]...)
-				deletedNonLast = j < len(mb.Routes[ri].Dests)-1
-				drainDests = append(drainDests, b.Dests[ri][j])
-			case "addDest":
-				f := genF(t, "newdest", 25)
-				nd := h.CounterDest(key, f.MustMatcher(), 100+entSeq%50)
-				k := fmt.Sprintf("%s/dnew%d", key, entSeq)
-				destObjs[k] = nd
-				op = func() error {
-					switch r := b.Routes[ri].(type) {
-					case *route.SendAllMatch:
-						r.Add(nd)
-					case *route.SendFirstMatch:
-						r.Add(nd)
-					}
-					return nil
+		nops := rapid.SampledFrom([]int{1, 1, 2, 2, 3}).Draw(t, "nops")
+		for oi := 0; oi < nops; oi++ {
+			entSeq++
+			kind := rapid.SampledFrom(kinds).Draw(t, "op")
+			var realRoutes []int
+			for i, r := range cur.Routes {
+				if r.Type != "capture" {
+					realRoutes = append(realRoutes, i)
 				}
-				opDesc = fmt.Sprintf("addDest %s %s", key, f)
-				ma.Routes[ri].Dests = append(ma.Routes[ri].Dests, ref.DestModel{Filter: f})
-				ida.dests[ri] = append(ida.dests[ri], k)
-			default:
-				j := rapid.IntRange(0, len(mb.Routes[ri].Dests)-1).Draw(t, "didx")
-				f := genF(t, "moddest", 50)
-				opts := map[string]string{"prefix": f.Prefix, "notPrefix": f.NotPrefix, "sub": f.Sub, "notSub": f.NotSub, "regex": f.Regex, "notRegex": f.NotRegex}
-				op = func() error { return b.Tab.UpdateDestination(key, j, opts) }
-				opDesc = fmt.Sprintf("modDest %s %d %s", key, j, f)
-				ma.Routes[ri].Dests[j].Filter = f
 			}
-		case "modRoute":
-			ri := rapid.IntRange(0, len(mb.Routes)-1).Draw(t, "ridx")
-			key := mb.Routes[ri].Key
-			f := genF(t, "modroute", 50)
-			opts := map[string]string{"prefix": f.Prefix, "notPrefix": f.NotPrefix, "sub": f.Sub, "notSub": f.NotSub, "regex": f.Regex, "notRegex": f.NotRegex}
-			op = func() error { return b.Tab.UpdateRoute(key, opts) }
-			opDesc = fmt.Sprintf("modRoute %s %s", key, f)
-			ma.Routes[ri].Filter = f
+			var op func() error
+			var desc string
+			switch kind {
+			case "delRoute":
+				if len(cur.Routes) <= 1 {
+					continue
+				}
+				i := rapid.IntRange(0, len(cur.Routes)-1).Draw(t, "idx")
+				key := cur.Routes[i].Key
+				op = func() error { return b.Tab.DelRoute(key) }
+				desc = "delRoute " + key
+				deletedNonLast = deletedNonLast || i < len(cur.Routes)-1
+				for _, dk := range curID.dests[i] {
+					drainDests = append(drainDests, destObjs[dk])
+				}
+				deletedRoutes[key] = true
+				cur.Routes = append(cur.Routes[:i:i], cur.Routes[i+1:]...)
+				curID.routes = append(curID.routes[:i:i], curID.routes[i+1:]...)
+				curID.dests = append(curID.dests[:i:i], curID.dests[i+1:]...)
+			case "addRoute":
+				key := fmt.Sprintf("new%d", entSeq)
+				f := genF(t, "newroute", 20)
+				c := h.NewCaptureRoute(key, f.MustMatcher())
+				capObjs[key] = c
+				routeObjs[key] = c
+				op = func() error { b.Tab.AddRoute(c); return nil }
+				desc = "addRoute " + key + f.String()
+				cur.Routes = append(cur.Routes, ref.RouteModel{Key: key, Type: "capture", Filter: f})
+				curID.routes = append(curID.routes, key)
+				curID.dests = append(curID.dests, nil)
+			case "delBlack":
+				if len(cur.Blacklist) == 0 {
+					continue
+				}
+				i := rapid.IntRange(0, len(cur.Blacklist)-1).Draw(t, "idx")
+				op = func() error { return b.Tab.DelBlacklist(i) }
+				desc = fmt.Sprintf("delBlack %d", i)
+				deletedNonLast = deletedNonLast || i < len(cur.Blacklist)-1
+				cur.Blacklist = append(cur.Blacklist[:i:i], cur.Blacklist[i+1:]...)
+			case "addBlack":
+				f := rapid.SampledFrom([]gen.Filter{{Prefix: "foo"}, {Sub: "zzz"}, {Regex: "bar$"}, {Sub: ".s"}}).Draw(t, "newbl")
+				mm := f.MustMatcher()
+				op = func() error { b.Tab.AddBlacklist(&mm); return nil }
+				desc = "addBlack " + f.String()
+				cur.Blacklist = append(cur.Blacklist, f)
+			case "delRewriter":
+				if len(cur.Rewriters) == 0 {
+					continue
+				}
+				i := rapid.IntRange(0, len(cur.Rewriters)-1).Draw(t, "idx")
+				op = func() error { return b.Tab.DelRewriter(i) }
+				desc = fmt.Sprintf("delRewriter %d", i)
+				deletedNonLast = deletedNonLast || i < len(cur.Rewriters)-1
+				cur.Rewriters = append(cur.Rewriters[:i:i], cur.Rewriters[i+1:]...)
+			case "addRewriter":
+				r := rapid.SampledFrom([]ref.RW{{Old: "/$/", New: ".n", Max: -1}, {Old: "foo", New: "moo", Max: 1}, {Old: "/^/", New: "p.", Max: -1}}).Draw(t, "newrw")
+				rw, _ := r.Real()
+				op = func() error { b.Tab.AddRewriter(rw); return nil }
+				desc = "addRewriter " + r.String()
+				cur.Rewriters = append(cur.Rewriters, r)
+			case "delAgg":
+				if len(cur.Aggs) == 0 {
+					continue
+				}
+				i := rapid.IntRange(0, len(cur.Aggs)-1).Draw(t, "idx")
+				op = func() error { return b.Tab.DelAggregator(i) }
+				desc = fmt.Sprintf("delAgg %d", i)
+				deletedNonLast = deletedNonLast || i < len(cur.Aggs)-1
+				deletedAggs[curID.aggs[i]] = true
+				cur.Aggs = append(cur.Aggs[:i:i], cur.Aggs[i+1:]...)
+				curID.aggs = append(curID.aggs[:i:i], curID.aggs[i+1:]...)
+			case "addAgg":
+				f := genF(t, "newagg", 30)
+				if f.Regex == "" {
+					f.Regex = "."
+				}
+				k := fmt.Sprintf("anew%d", entSeq)
+				ag, err := aggregator.NewMocked("count", f.MustMatcher(), "c18."+k, false, 10, 100, false, b.AggOut, 10, func() time.Time { return time.Unix(1500000000, 0) }, make(chan time.Time))
+				if err != nil {
+					t.Fatalf("HARNESS-ERROR: %v", err)
+				}
+				aggObjs[k] = ag
+				op = func() error { b.Tab.AddAggregator(ag); return nil }
+				desc = "addAgg " + f.String()
+				cur.Aggs = append(cur.Aggs, ref.AggModel{Filter: f})
+				curID.aggs = append(curID.aggs, k)
+			case "delDest", "addDest", "modDest":
+				if len(realRoutes) == 0 {
+					continue
+				}
+				ri := realRoutes[rapid.IntRange(0, len(realRoutes)-1).Draw(t, "ridx")]
+				key := cur.Routes[ri].Key
+				rt := routeObjs[key]
+				switch kind {
+				case "delDest":
+					if len(cur.Routes[ri].Dests) == 0 {
+						continue
+					}
+					j := rapid.IntRange(0, len(cur.Routes[ri].Dests)-1).Draw(t, "didx")
+					op = func() error { return b.Tab.DelDestination(key, j) }
+					desc = fmt.Sprintf("delDest %s %d", key, j)
+					deletedNonLast = deletedNonLast || j < len(cur.Routes[ri].Dests)-1
+					drainDests = append(drainDests, destObjs[curID.dests[ri][j]])
+					cur.Routes[ri].Dests = append(cur.Routes[ri].Dests[:j:j], cur.Routes[ri].Dests[j+1:]...)
+					curID.dests[ri] = append(curID.dests[ri][:j:j], curID.dests[ri][j+1:]...)
+				case "addDest":
+					f := genF(t, "newdest", 25)
+					nd := h.CounterDest(key, f.MustMatcher(), 100+entSeq%400)
+					k := fmt.Sprintf("%s/dnew%d", key, entSeq)
+					destObjs[k] = nd
+					op = func() error {
+						switch r := rt.(type) {
+						case *route.SendAllMatch:
+							r.Add(nd)
+						case *route.SendFirstMatch:
+							r.Add(nd)
+						}
+						return nil
+					}
+					desc = fmt.Sprintf("addDest %s %s", key, f)
+					cur.Routes[ri].Dests = append(cur.Routes[ri].Dests, ref.DestModel{Filter: f})
+					curID.dests[ri] = append(curID.dests[ri], k)
+				default:
+					if len(cur.Routes[ri].Dests) == 0 {
+						continue
+					}
+					j := rapid.IntRange(0, len(cur.Routes[ri].Dests)-1).Draw(t, "didx")
+					f := genF(t, "moddest", 50)
+					opts := map[string]string{"prefix": f.Prefix, "notPrefix": f.NotPrefix, "sub": f.Sub, "notSub": f.NotSub, "regex": f.Regex, "notRegex": f.NotRegex}
+					op = func() error { return b.Tab.UpdateDestination(key, j, opts) }
+					desc = fmt.Sprintf("modDest %s %d %s", key, j, f)
+					cur.Routes[ri].Dests[j].Filter = f
+				}
+			case "modRoute":
+				ri := rapid.IntRange(0, len(cur.Routes)-1).Draw(t, "ridx")
+				key := cur.Routes[ri].Key
+				f := genF(t, "modroute", 50)
+				opts := map[string]string{"prefix": f.Prefix, "notPrefix": f.NotPrefix, "sub": f.Sub, "notSub": f.NotSub, "regex": f.Regex, "notRegex": f.NotRegex}
+				op = func() error { return b.Tab.UpdateRoute(key, opts) }
+				desc = fmt.Sprintf("modRoute %s %s", key, f)
+				cur.Routes[ri].Filter = f
+			}
+			if op == nil {
+				continue
+			}
+			ops = append(ops, op)
+			opDescs = append(opDescs, desc)
+			states = append(states, state{cloneModel(cur), cloneIDs(curID)})
 		}
+		if len(ops) == 0 {
+			t.Skip("no applicable operation")
+		}
+		opDesc := strings.Join(opDescs, "; ")
+		ma, ida := states[len(states)-1].m, states[len(states)-1].id
 
 		// baseline counters
 		c0 := h.ReadTableCounters()
@@ -398,18 +440,20 @@ func TestPropParkedDispatch(t *testing.T) {
 			t.Fatalf("dispatcher neither finished nor reached the park point %s", point)
 		}
 		pk.disarm()
-		// run the admin operation to completion while the dispatcher holds the old snapshot
-		opDone := make(chan error, 1)
-		go func() { opDone <- op() }()
-		var opErr error
-		select {
-		case opErr = <-opDone:
-		case <-time.After(10 * time.Second):
-			close(resume)
-			t.Fatalf("admin operation %q did not complete while a dispatcher was in flight (table %s)", opDesc, mb)
-		}
-		if opErr != nil {
-			t.Fatalf("admin operation %q failed: %v", opDesc, opErr)
+		// run the admin operations to completion, one after the other, while the dispatcher holds what it has loaded
+		for oi, op := range ops {
+			opDone := make(chan error, 1)
+			go func() { opDone <- op() }()
+			select {
+			case err := <-opDone:
+				if err != nil {
+					close(resume)
+					t.Fatalf("admin operation %q failed: %v", opDescs[oi], err)
+				}
+			case <-time.After(10 * time.Second):
+				close(resume)
+				t.Fatalf("admin operation %q did not complete while a dispatcher was in flight (table %s)", opDescs[oi], mb)
+			}
 		}
 		// a deleted destination no longer reads its input: drain it so a late hand-off is observed instead of blocking forever
 		drained := map[*dest.Destination]*int64{}
@@ -443,17 +487,14 @@ func TestPropParkedDispatch(t *testing.T) {
 		dwg.Wait()
 
 		// observe (aggregations count a point only once their own goroutine has taken it from the
-		// inbox, so the reading is repeated until it agrees with one of the two outcomes or 3 s pass)
+		// inbox, so the reading is repeated until it agrees with one of the admissible outcomes or 3 s pass)
 		observe := func(base0 h.TableCounters) deliveries {
 			got := deliveries{}
 			for k, c := range capObjs {
 				got["route:"+k] = len(c.Lines())
 			}
-			for i, rt := range b.Routes {
-				if mb.Routes[i].Type == "capture" {
-					continue
-				}
-				if kind == "delRoute" && opDesc == "delRoute "+mb.Routes[i].Key {
+			for k, rt := range routeObjs {
+				if _, isCap := capObjs[k]; isCap || deletedRoutes[k] {
 					continue
 				}
 				rt.Flush()
@@ -466,8 +507,7 @@ func TestPropParkedDispatch(t *testing.T) {
 				got["dest:"+k] = n
 			}
 			for k, a := range aggObjs {
-				deleted := kind == "delAgg" && !contains(ida.aggs, k)
-				if !deleted {
+				if !deletedAggs[k] {
 					a.Snapshot()
 				}
 				got["agg:"+k] = int(h.Count("unit=Metric.direction=in.aggregator="+a.Key) - aggBase[k])
@@ -477,16 +517,10 @@ func TestPropParkedDispatch(t *testing.T) {
 			got["unroutable"] = int(c1.Unroutable)
 			return got
 		}
-		wb, wa := expected(mb, idb), expected(ma, ida)
-		// entities deleted by the operation: a hand-off to them cannot always be observed (they stopped counting);
-		// compare modulo those keys
+		// a hand-off to an aggregation deleted by one of the operations cannot be observed (it stopped counting)
 		ignore := map[string]bool{}
-		if kind == "delAgg" {
-			for _, k := range idb.aggs {
-				if !contains(ida.aggs, k) {
-					ignore["agg:"+k] = true
-				}
-			}
+		for k := range deletedAggs {
+			ignore["agg:"+k] = true
 		}
 		eq := func(a, b deliveries) bool {
 			keys := map[string]bool{}
@@ -506,15 +540,57 @@ func TestPropParkedDispatch(t *testing.T) {
 			}
 			return true
 		}
+		// admissible: the complete table as it was before or after EACH change
+		var admissible []deliveries
+		for _, st := range states {
+			admissible = append(admissible, expected(st.m, st.id))
+		}
+		okAny := func(g deliveries) bool {
+			for _, w := range admissible {
+				if eq(g, w) {
+					return true
+				}
+			}
+			return false
+		}
+		// Known finding "cross-level-snapshot": the table-level lists and every route's own configuration are
+		// separate atomic snapshots.  When the window holds changes at BOTH levels, a parked dispatcher finishes with
+		// what it had loaded (state before all changes) for the levels it had already read and with the final state
+		// for everything it reads afterwards - a combination that never existed as a complete table.  The exact
+		// combination for this park point:
+		mixed, mixedID, mixedIgnore := mixedModel(states[0].m, states[0].id, ma, ida, point)
+		wantMixed := expected(mixed, mixedID)
+		eqMixed := func(g deliveries) bool {
+			saved := ignore
+			ig := map[string]bool{}
+			for k := range saved {
+				ig[k] = true
+			}
+			for k := range mixedIgnore {
+				ig[k] = true
+			}
+			ignore = ig
+			r := eq(g, wantMixed)
+			ignore = saved
+			return r
+		}
+		_, crossKnown := ev.IsKnown("C18", "cross-level-snapshot")
 		got := observe(c0)
-		for dl := time.Now().Add(3 * time.Second); !eq(got, wb) && !eq(got, wa) && time.Now().Before(dl); {
+		for dl := time.Now().Add(3 * time.Second); !okAny(got) && !(crossKnown && eqMixed(got)) && time.Now().Before(dl); {
 			time.Sleep(200 * time.Microsecond)
 			got = observe(c0)
 		}
-		if !eq(got, wb) && !eq(got, wa) {
-			t.Fatalf("metric %q dispatched while %q ran (dispatcher parked at %s, reached=%v):\n  deliveries observed: %s\n  under the table before: %s\n  under the table after:  %s\n  table before: %s", line, opDesc, point, reached, got, wb, wa, mb)
+		if !okAny(got) && crossKnown && len(ops) >= 2 && eqMixed(got) {
+			what, _ := ev.IsKnown("C18", "cross-level-snapshot")
+			rec.Known("C18", "cross-level-snapshot", what, fmt.Sprintf("park=%s ops=%q observed=%s", point, opDesc, got))
+		} else if !okAny(got) {
+			var sb strings.Builder
+			for i, w := range admissible {
+				fmt.Fprintf(&sb, "  under the table after %d of the operations: %s\n", i, w)
+			}
+			t.Fatalf("metric %q dispatched while %q ran (dispatcher parked at %s, reached=%v):\n  deliveries observed: %s\n%s  table before: %s", line, opDesc, point, reached, got, sb.String(), mb)
 		}
-		// a metric dispatched after the operation returned sees the new table only
+		// a metric dispatched after the operations returned sees the new table only
 		for _, c := range capObjs {
 			c.OnDisp = nil
 			c.Reset()
@@ -528,6 +604,7 @@ func TestPropParkedDispatch(t *testing.T) {
 		}
 		b.Tab.Dispatch([]byte(line))
 		drained = map[*dest.Destination]*int64{}
+		wa := expected(ma, ida)
 		got2 := observe(c0)
 		for dl := time.Now().Add(3 * time.Second); !eq(got2, wa) && time.Now().Before(dl); {
 			time.Sleep(200 * time.Microsecond)
@@ -536,22 +613,97 @@ func TestPropParkedDispatch(t *testing.T) {
 		if !eq(got2, wa) {
 			t.Fatalf("metric dispatched AFTER %q returned:\n  deliveries observed: %s\n  under the table after: %s\n  table before: %s", opDesc, got2, wa, mb)
 		}
-		// the table view reflects the change
+		// the table view reflects the changes
 		checkSnapshot(t, b.Tab, ma, opDesc)
 
 		// cleanup
-		for i, rt := range b.Routes {
-			if mb.Routes[i].Type != "capture" && !(kind == "delRoute" && opDesc == "delRoute "+mb.Routes[i].Key) {
+		for k, rt := range routeObjs {
+			if _, isCap := capObjs[k]; !isCap && !deletedRoutes[k] {
 				rt.Shutdown()
 			}
 		}
 		for k, a := range aggObjs {
-			if strings.HasPrefix(k, "a") && !strings.HasPrefix(k, "anew") && !(kind == "delAgg" && !contains(ida.aggs, k)) {
+			if !deletedAggs[k] {
 				a.Shutdown()
 			}
 		}
-		rec.Case(fmt.Sprintf("%s | park=%s reached=%v | %s", mb, point, reached, opDesc), reached && deletedNonLast, "op="+kind, fmt.Sprintf("reached-park=%v", reached), fmt.Sprintf("deleted-non-last=%v", deletedNonLast))
+		rec.Case(fmt.Sprintf("%s | park=%s reached=%v | %s", mb, point, reached, opDesc), reached && deletedNonLast, fmt.Sprintf("nops=%d", len(ops)), fmt.Sprintf("reached-park=%v", reached), fmt.Sprintf("deleted-non-last=%v", deletedNonLast))
 	})
+}
+
+// mixedModel: table-level lists as loaded before the window (t0); each route's own configuration from t0 if the
+// dispatcher had already read it when it parked, from the final state (tk) otherwise.
+func mixedModel(t0 *ref.Model, id0 ids, tk *ref.Model, idk ids, point string) (*ref.Model, ids, map[string]bool) {
+	m := &ref.Model{}
+	m.Blacklist = append(m.Blacklist, t0.Blacklist...)
+	m.Rewriters = append(m.Rewriters, t0.Rewriters...)
+	m.Aggs = append(m.Aggs, t0.Aggs...)
+	id := ids{aggs: append([]string(nil), id0.aggs...)}
+	ignore := map[string]bool{}
+	pos := -1
+	parkKey := ""
+	if i := strings.IndexByte(point, ':'); i >= 0 {
+		parkKey = point[i+1:]
+	}
+	for p, r := range t0.Routes {
+		if r.Key == parkKey {
+			pos = p
+		}
+	}
+	kIndex := func(key string) int {
+		for i, r := range tk.Routes {
+			if r.Key == key {
+				return i
+			}
+		}
+		return -1
+	}
+	destFilterK := func(destID string) (gen.Filter, bool) {
+		for ri, ds := range idk.dests {
+			for j, d := range ds {
+				if d == destID {
+					return tk.Routes[ri].Dests[j].Filter, true
+				}
+			}
+		}
+		return gen.Filter{}, false
+	}
+	for p, r := range t0.Routes {
+		switch {
+		case p < pos || (p == pos && strings.HasPrefix(point, "capture:")):
+			m.Routes = append(m.Routes, r)
+			id.routes = append(id.routes, id0.routes[p])
+			id.dests = append(id.dests, id0.dests[p])
+		case p == pos: // parked right after this carbon route loaded its destination list
+			rr := r
+			rr.Dests = append([]ref.DestModel(nil), r.Dests...)
+			for j := range rr.Dests {
+				if f, ok := destFilterK(id0.dests[p][j]); ok {
+					rr.Dests[j].Filter = f
+				} else {
+					ignore["dest:"+id0.dests[p][j]] = true
+				}
+			}
+			m.Routes = append(m.Routes, rr)
+			id.routes = append(id.routes, id0.routes[p])
+			id.dests = append(id.dests, id0.dests[p])
+		default:
+			if k := kIndex(r.Key); k >= 0 {
+				m.Routes = append(m.Routes, tk.Routes[k])
+				id.routes = append(id.routes, idk.routes[k])
+				id.dests = append(id.dests, idk.dests[k])
+			} else { // deleted in the window: the dispatcher still calls it; what it does then is not observable reliably
+				m.Routes = append(m.Routes, r)
+				id.routes = append(id.routes, id0.routes[p])
+				id.dests = append(id.dests, id0.dests[p])
+				ignore["route:"+r.Key] = true
+				for _, d := range id0.dests[p] {
+					ignore["dest:"+d] = true
+				}
+			}
+		}
+	}
+	return m, id, ignore
 }
 
 func contains(s []string, k string) bool {
